@@ -672,6 +672,120 @@ def lemma_monoid():
     yield "associative:opaque-with-overwrite(later wins)", ax + [opq(x), opq(y), opq(z), ow], z3.And(xy_z == x_yz, xy_z == z)
 
 
+# ---- the two small recursive helpers: _nested_partial, val_from_partial ------------------------------------------------------------------------------------------
+class NestedPartialBody(FnSpec):
+    file = "schema/partial.py"
+    qual = "PartialModel._nested_partial"
+    props = ("C14",)
+
+    def init(self):
+        self.bindings["PartialModel"] = SClass("PartialModel")
+        self.bindings["type"] = lambda cx, o: ("type-of", o)
+
+    def setup(self, cx):
+        is_partial = cx.choose(2) == 1
+
+        class Val(SVal):
+            def py_isinstance(s, cx2, c):
+                if c == "PartialModel":
+                    return is_partial
+                raise Unsupported("isinstance against " + str(c))
+
+        class PartialOf(SVal):
+            def __init__(s, t):
+                s.t = t
+
+            def meth_cast(s, cx2, v):
+                cx2.effect("cast", s.t, v)
+                return ("cast-result", s.t, v)
+
+        class Fac(SVal):
+            def meth_get_partial(s, cx2, t):
+                cx2.effect("get_partial", t)
+                return PartialOf(t)
+
+        me = SObj("PartialModelObj", name="self")
+        me.fields["__partial_fac__"] = Fac()
+        a = A(self=me, val=Val())
+        a.is_partial = is_partial
+        return a
+
+    def raises(self, cx, a):
+        return {}
+
+    def ensures(self, cx, a, res):
+        if a.is_partial:
+            return [("a-partial-is-kept-as-it-is", z3.BoolVal(res is a.val and not cx.fx), "a value that already is a partial is merged as it is (no copy, no re-parsing)")]
+        fx = [e[:-1] for e in cx.fx]
+        ok = len(fx) == 2 and fx[0] == ("get_partial", ("type-of", a.val)) and fx[1][0] == "cast" and fx[1][2] is a.val and res == ("cast-result", ("type-of", a.val), a.val)
+        return [("a-full-model-is-cast-into-the-partial-of-its-own-class", z3.BoolVal(bool(ok)), "a nested full model is converted by the partial class of ITS OWN type (get_partial(type(val)).cast(val)), from this model's factory")]
+
+
+class ValFromPartial(FnSpec):
+    file = "schema/partial.py"
+    qual = "val_from_partial"
+    props = ("C14",)
+    recursive = True
+
+    def init(self):
+        self.bindings["PartialModel"] = SClass("PartialModel")
+        self.bindings["list"] = SClass("list")
+        self.bindings["set"] = SClass("set")
+
+        def elementwise(interp, cx, fr, e):
+            import ast
+
+            from pyvc.engine import Env, Frame
+
+            if len(e.generators) != 1 or e.generators[0].ifs or not isinstance(e.generators[0].target, ast.Name):
+                return NotImplemented
+            src = interp.eval(cx, fr, e.generators[0].iter)
+            if not isinstance(src, VfpVal):
+                return NotImplemented
+            sub = Frame(fr.modinfo, fr.qual, Env(fr.env), spec=fr.spec, cls=fr.cls)
+            elem = VfpVal("element", of=src)
+            sub.env.set(e.generators[0].target.id, elem)
+            out = interp.eval(cx, sub, e.elt)
+            return ("each-element", "list" if isinstance(e, ast.ListComp) else "set", src, out, elem)
+
+        self.comps[0] = elementwise
+
+    def setup(self, cx):
+        kind = ["partial", "list", "set", "other"][cx.choose(4)]
+        a = A(val=VfpVal(kind))
+        a.kind = kind
+        return a
+
+    def raises(self, cx, a):
+        return {}
+
+    def ensures(self, cx, a, res):
+        v = a.val
+        if a.kind == "partial":
+            return [("a-partial-becomes-its-full-model", z3.BoolVal(res == ("from_partial", v)), "")]
+        if a.kind == "other":
+            return [("anything-else-is-kept", z3.BoolVal(res is v), "")]
+        ok = isinstance(res, tuple) and res[0] == "each-element" and res[1] == a.kind and res[2] is v and res[3] == ("val_from_partial", res[4])
+        return [("collections-keep-their-kind-and-convert-every-element", z3.BoolVal(bool(ok)), "a list stays a list and a set a set, with every element converted recursively (nested partials inside collections are not left behind)")]
+
+    # the recursive call on an element: by contract
+    def apply(self, cx, a):
+        return ("val_from_partial", a.val)
+
+
+class VfpVal(SVal):
+    def __init__(self, kind, of=None):
+        self.kind, self.of = kind, of
+
+    def py_isinstance(self, cx, c):
+        if self.kind == "element":
+            raise Unsupported("the element is only handed to the recursive call")
+        return {"PartialModel": self.kind == "partial", "list": self.kind == "list", "set": self.kind == "set"}[c if isinstance(c, str) else c.name]
+
+    def meth_from_partial(self, cx):
+        return ("from_partial", self)
+
+
 def build(reg):
     reg.set_class_home("PartialModel", "schema/partial.py")
     reg.attr_bindings[("PartialModel", "__partial_fac__")] = lambda cx, o: SObj("PartialFactory", name="factory")
@@ -687,6 +801,10 @@ def build(reg):
     specs = [UpdateField(), MergeWith(), GetFieldVals(), SchemaGetFieldVals(), ToPartial(), CastSpec(), FromPartial(), MergeFold(), MergeTwo()]
     for s in specs:
         reg.add(s)
+    reg.set_class_home("PartialModelObj", "schema/partial.py", "PartialModel")
+    vfp = ValFromPartial()
+    reg.add(vfp)  # (its recursive call is resolved through the registry; from_partial keeps its own binding for it)
+    specs = specs + [NestedPartialBody(), vfp]  # _nested_partial: body verified on its own (callers keep the binding above)
     return {
         "verify": specs,
         "lemmas": [("field-merge-monoid", lemma_monoid)],
